@@ -870,7 +870,19 @@ func (e *CoreExtension) testSameAs(value interface{}, args ...interface{}) (bool
 	if args[0] != nil && !reflect.TypeOf(args[0]).Comparable() {
 		return false, nil
 	}
-	return value == args[0], nil
+	return sameValue(value, args[0]), nil
+}
+
+// sameValue is a == b. A comparable struct or array type can still hold something
+// that is not comparable in an interface field; Go panics when it gets there, and
+// such values are then not "the same"
+func sameValue(a, b interface{}) (same bool) {
+	defer func() {
+		if recover() != nil {
+			same = false
+		}
+	}()
+	return a == b
 }
 
 func (e *CoreExtension) testDivisibleBy(value interface{}, args ...interface{}) (bool, error) {
@@ -1285,7 +1297,7 @@ func toString(v interface{}) string {
 		if rv.IsNil() {
 			return ""
 		}
-		if rv.Elem().Kind() != reflect.Struct && rv.Elem().CanInterface() {
+		if rv.Elem().Kind() != reflect.Struct && rv.Elem().CanInterface() && !containsItself(rv, 0, nil) {
 			return toString(rv.Elem().Interface())
 		}
 	}
